@@ -16,6 +16,15 @@ def plan(plan, tier, seed):
         plan.verus.append(VerusUnit("c18_join", unit, {"join_row_selection": name}, ["canary_join"]))
     except AnchorLost as e:
         plan.anchor_errors.append((name, str(e)))
+    n5 = "C18.verus.merge_rows.union_of_columns_and_padding"
+    plan.ob(n5, "verus", "proved", functions=["merge_rows (whole body)"],
+            what="for every pair of tables, row numbers and set of common rhs columns: the combined row has exactly the union of the columns (every lhs column, every rhs column that is not a common one); lhs columns hold the lhs row's cells; rhs-only columns hold the rhs row's cells -- and the empty value precisely when the row is padded (no matching rhs row)")
+    try:
+        plan.verus.append(VerusUnit("c18_merge_rows", vC18.merge_unit(text), {"merge_rows": n5}, ["canary_merge"]))
+    except AnchorLost as e:
+        plan.anchor_errors.append((n5, str(e)))
+    plan.dropped.append(vC18.merge_rows_fn.__doc__.strip() + " -- " + vC18._row_rewrite.__doc__.strip())
+    plan.assumptions.append("merge_rows: a table's data (IndexMap) is the vector of its column ids; reading a cell is the uninterpreted cellv(table, column, row); rhs-only columns carry other ids than the lhs columns (precondition: they have other names); std HashMap / HashSet per vstd")
     n3 = "C18.verus.rows_match.all_common_columns"
     plan.ob(n3, "verus", "proved", functions=["rows_match"],
             what="two rows match iff they hold equal cells in EVERY pair of commonly named columns (for any number of common columns, including none)")
